@@ -5,6 +5,7 @@ package cfeminter
 // CalculateInflation implementations, AmountToMint, InitGenesis / ExportGenesis, GenesisState.Validate (as the precondition).
 
 import (
+	sdk "github.com/cosmos/cosmos-sdk/types"
 	"github.com/chain4energy/c4e-chain/x/cfeminter/keeper"
 	"github.com/chain4energy/c4e-chain/x/cfeminter/types"
 	authtypes "github.com/cosmos/cosmos-sdk/x/auth/types"
@@ -52,6 +53,13 @@ func Verif_C10_minter_begin_block() {
 	W.bank.fund(verifModuleAddr("someone"), g.Params.MintDenom, verif_int_range("supply", "0", "1e30"))
 	verif_knob("unroll", 8)
 	BeginBlocker(ctx.WithBlockTime(verif_time("T")), k)
+	// the step is inductive: the state the block leaves behind is again a validation-accepted state with small remainders,
+	// i.e. a pre-state this harness covers
+	st := k.GetMinterState(ctx)
+	g2 := types.GenesisState{Params: k.GetParams(ctx), MinterState: st}
+	verif_assert(g2.Validate() == nil, "the minter state after the block is again accepted by validation (assumed of the pre-state of every block)")
+	ten := sdk.NewDec(10)
+	verif_assert(st.RemainderToMint.LT(ten) && st.RemainderFromPreviousMinter.LT(ten), "remainders stay below ten base units (assumed of the pre-state of every block)")
 	verif_reach("block processed")
 }
 
